@@ -222,14 +222,16 @@ type World struct {
 	OnCrash      func(w *World) *Violation
 	PanicSig     func(w *World) map[string]string // signature of a recovered worker panic (known-finding matching)
 	PanicProp    string
-	Stages       []Stage
-	ss           stageState
-	lastSig      int
-	budget       bool
-	budgetAt     string
-	ResyncHint   time.Duration // largest parent resync period configured (quiet-window computation)
-	ExtraQuiet   time.Duration // scenario-declared extra delay sources (Retry-After, resyncAfterSeconds)
-	Proc         *Proc
+	// InlineUnsyncedHooks: see HookTransport.RoundTrip
+	InlineUnsyncedHooks bool
+	Stages              []Stage
+	ss                  stageState
+	lastSig             int
+	budget              bool
+	budgetAt            string
+	ResyncHint          time.Duration // largest parent resync period configured (quiet-window computation)
+	ExtraQuiet          time.Duration // scenario-declared extra delay sources (Retry-After, resyncAfterSeconds)
+	Proc                *Proc
 }
 
 type workerState struct {
@@ -487,6 +489,34 @@ func (t *HookTransport) RoundTrip(req *http.Request) (*http.Response, error) {
 	}
 	h.Req, _ = parse(body)
 	h.sig = fmt.Sprintf("HOOK %s #%x if-none-match=%q", h.URL, fnv64(body), req.Header.Get("If-None-Match"))
+	if seq < 0 && w.InlineUnsyncedHooks {
+		// A hook call made outside any sync comes from an informer event handler
+		// (the customize manager asks the customize hook while the shared handler's
+		// read lock is held). Parking it could leave another goroutine blocked on that
+		// sync.RWMutex, which synctest does not count as durably blocked: the bubble
+		// would never become quiescent. Such calls are answered at once, on the
+		// calling goroutine, inside the kernel step that triggered them.
+		w.mu.Lock()
+		w.arrivals++
+		h.Arrival = w.arrivals
+		h.Inc = w.inc
+		h.ParkStep = w.step
+		h.Step = w.step
+		h.ParkTime = time.Since(w.start)
+		w.mu.Unlock()
+		ans := w.HookProgram(w, h)
+		w.mu.Lock()
+		h.Answered = true
+		h.Code, h.RespBody, h.RespHeader = ans.Code, ans.Body, ans.Header
+		w.Hooks = append(w.Hooks, h)
+		w.asyncLog = append(w.asyncLog, fmt.Sprintf("inline %s => %d #%x", h.sig, ans.Code, fnv64(ans.Body)))
+		w.mu.Unlock()
+		if ans.Err || ans.Stall {
+			return nil, &simNetErr{"injected: connection refused"}
+		}
+		resp := httpResp(req, ans.Code, ans.Body, ans.Header)
+		return resp, nil
+	}
 	w.mu.Lock()
 	if w.crashed {
 		w.mu.Unlock()
